@@ -195,6 +195,9 @@ func (x *Exec) evalIdent(ctx *SpecCtx, name string) Value {
 	if v, ok := x.cfgVals[name]; ok {
 		return x.b.Int(v)
 	}
+	if name == "cfg_purego" {
+		return x.b.Bool(x.prog != nil && strings.Contains(x.prog.Tags, "purego"))
+	}
 	if ctx.fr != nil {
 		if v, ok := x.lookupLocal(ctx.st, ctx.fr, name); ok {
 			return v
